@@ -109,6 +109,7 @@ class Rule:
             not self.is_loop()
             and len(rhs.alts) == 1
             and len(rhs.alts[0].items) == 1
+            and not rhs.alts[0].action  # the group's value must still go through the outer action
             and isinstance(rhs.alts[0].items[0].item, Group)
         ):
             rhs = rhs.alts[0].items[0].item.rhs
